@@ -689,11 +689,24 @@ theorem count_getD (n : Nat) : (if n = 1 then (none : Option Nat) else some n).g
   · rw [if_pos h, h]; rfl
   · rw [if_neg h]; rfl
 
-theorem applyUnifiedLoop_chunk (L R : List Line) (c : Chunk Line) (rest : List Line) (f : Nat)
+/-- the applier's own account of the new-file position agrees with the aligned position -/
+theorem At.newPos {L R : List Line} {s : DiffApply.St} {lp rp : Nat} (h : At L R s lp rp) :
+    s.newPos L lp = rp := by
+  have hp2 := h.p2; have hp1 := h.p1
+  unfold DiffApply.St.newPos
+  rw [linesIncl_eq_span]
+  have : lp - 1 + 1 = lp := by omega
+  rw [this, h.out, length_span R (Nat.le_refl _) h.r3]
+  have := h.r1
+  omega
+
+/-- one hunk.  `hne`: the chunk's LEFT range is not empty, or the applier reads an empty left range
+the way it is written (`asWritten = true`).  An empty RIGHT range needs no hypothesis. -/
+theorem applyUnifiedLoop_chunk (aw : Bool) (L R : List Line) (c : Chunk Line) (rest : List Line) (f : Nat)
     (s : DiffApply.St) (lp rp : Nat) (h : At L R s lp rp) (g : GapEq L R lp rp c.lstart c.rstart)
-    (hc : ChunkOK c L R) (hne : c.lstart < c.lend ∧ c.rstart < c.rend) :
-    ∃ s', DiffApply.applyUnifiedLoop L (f + 1) (unifiedChunk c ++ rest) s
-        = DiffApply.applyUnifiedLoop L f rest s' ∧ At L R s' c.lend c.rend := by
+    (hc : ChunkOK c L R) (hne : aw = true ∨ c.lstart < c.lend) :
+    ∃ s', DiffApply.applyUnifiedLoop aw L (f + 1) (unifiedChunk c ++ rest) s
+        = DiffApply.applyUnifiedLoop aw L f rest s' ∧ At L R s' c.lend c.rend := by
   have hl1 := hc.l1; have hl2 := hc.l2; have hl3 := hc.l3
   have hr1 := hc.r1; have hr2 := hc.r2; have hr3 := hc.r3
   have h' := h.gap g (by omega) (by omega)
@@ -712,7 +725,18 @@ theorem applyUnifiedLoop_chunk (L R : List Line) (c : Chunk Line) (rest : List L
   simp only [count_getD]
   rw [← hol, ← hnl, unifiedBody_chunk]
   simp only
-  rw [if_neg (by omega), if_neg (by omega), hs]
+  have e1 : (if (consumed c.edits).length = 0 ∧ aw = false then c.lstart + 1 else c.lstart) = c.lstart := by
+    rw [if_neg]
+    rintro ⟨h0, ha⟩
+    rcases hne with hne | hne
+    · rw [ha] at hne; exact Bool.noConfusion hne
+    · omega
+  rw [e1]
+  have e2 : (if (produced c.edits).length = 0 then s.newPos L c.lstart else c.rstart) = c.rstart := by
+    by_cases h0 : (produced c.edits).length = 0
+    · rw [if_pos h0]; exact h'.newPos
+    · rw [if_neg h0]
+  rw [e2, hs]
 
 /-! ## all chunks -/
 
@@ -720,10 +744,10 @@ theorem unifiedChunk_length_pos (c : Chunk Line) : 1 ≤ (unifiedChunk c).length
   unfold unifiedChunk
   rw [List.length_cons]; omega
 
-theorem applyUnifiedLoop_chunks (L R : List Line) : ∀ (cs : List (Chunk Line)) (f : Nat)
+theorem applyUnifiedLoop_chunks (aw : Bool) (L R : List Line) : ∀ (cs : List (Chunk Line)) (f : Nat)
     (s : DiffApply.St) (lp rp : Nat), (cs.flatMap unifiedChunk).length + 1 ≤ f → At L R s lp rp →
-    AllOK cs L R → Aligned L R lp rp cs → (∀ c ∈ cs, c.lstart < c.lend ∧ c.rstart < c.rend) →
-    DiffApply.applyUnifiedLoop L f (cs.flatMap unifiedChunk) s = some R
+    AllOK cs L R → Aligned L R lp rp cs → (∀ c ∈ cs, aw = true ∨ c.lstart < c.lend) →
+    DiffApply.applyUnifiedLoop aw L f (cs.flatMap unifiedChunk) s = some R
   | [], f, s, lp, rp, hf, h, _, hal, _ => by
     obtain ⟨f', rfl⟩ : ∃ f', f = f' + 1 := ⟨f - 1, by omega⟩
     rw [List.flatMap_nil, DiffApply.applyUnifiedLoop, h.finish hal]
@@ -732,10 +756,10 @@ theorem applyUnifiedLoop_chunks (L R : List Line) : ∀ (cs : List (Chunk Line))
     rw [List.flatMap_cons] at hf ⊢
     rw [List.length_append] at hf
     have := unifiedChunk_length_pos c
-    obtain ⟨s', hs, hat⟩ := applyUnifiedLoop_chunk L R c (cs.flatMap unifiedChunk) f' s lp rp h hal.1
+    obtain ⟨s', hs, hat⟩ := applyUnifiedLoop_chunk aw L R c (cs.flatMap unifiedChunk) f' s lp rp h hal.1
       (hok c (List.mem_cons_self ..)) (hne c (List.mem_cons_self ..))
     rw [hs]
-    exact applyUnifiedLoop_chunks L R cs f' s' c.lend c.rend (by omega) hat
+    exact applyUnifiedLoop_chunks aw L R cs f' s' c.lend c.rend (by omega) hat
       (fun d hd => hok d (List.mem_cons_of_mem _ hd)) hal.2
       (fun d hd => hne d (List.mem_cons_of_mem _ hd))
 
@@ -778,21 +802,35 @@ theorem skipHeader_unified (cs : List (Chunk Line)) (fi : Option FileInfo) :
       simp only [List.cons_append, List.nil_append]
       rw [skipHeader_header]
 
+/-- the unified text of correct, aligned chunks applied with either reading of an empty left range:
+it gives `R` provided no chunk has an empty LEFT range, or the reading is the writer's own -/
+theorem applyUnifiedWith_chunks (aw : Bool) (cs : List (Chunk Line)) (L R : List Line) (fi : Option FileInfo)
+    (hok : AllOK cs L R) (hal : Aligned L R 1 1 cs)
+    (hne : ∀ c ∈ cs, aw = true ∨ c.lstart < c.lend) :
+    DiffApply.applyUnifiedWith aw (unified cs fi) L = some R := by
+  unfold DiffApply.applyUnifiedWith
+  simp only [skipHeader_unified]
+  exact applyUnifiedLoop_chunks aw L R cs _ _ 1 1 (Nat.le_refl _) (At.init L R) hok hal hne
+
 /-- **C14, unified**: the reference applier of the unified format, run on what `Unified` writes for
-correct, aligned chunks with non-empty ranges on both sides, turns `L` into `R` -/
+correct, aligned chunks with non-empty LEFT ranges, turns `L` into `R` -/
 theorem applyUnified_chunks (cs : List (Chunk Line)) (L R : List Line) (fi : Option FileInfo)
     (hok : AllOK cs L R) (hal : Aligned L R 1 1 cs)
-    (hne : ∀ c ∈ cs, c.lstart < c.lend ∧ c.rstart < c.rend) :
-    DiffApply.applyUnified (unified cs fi) L = some R := by
-  unfold DiffApply.applyUnified
-  simp only [skipHeader_unified]
-  exact applyUnifiedLoop_chunks L R cs _ _ 1 1 (Nat.le_refl _) (At.init L R) hok hal hne
+    (hne : ∀ c ∈ cs, c.lstart < c.lend) :
+    DiffApply.applyUnified (unified cs fi) L = some R :=
+  applyUnifiedWith_chunks false cs L R fi hok hal (fun c hc => Or.inr (hne c hc))
 
 theorem applyUnified_chunks_none (cs : List (Chunk Line)) (L R : List Line)
     (hok : AllOK cs L R) (hal : Aligned L R 1 1 cs)
-    (hne : ∀ c ∈ cs, c.lstart < c.lend ∧ c.rstart < c.rend) :
+    (hne : ∀ c ∈ cs, c.lstart < c.lend) :
     DiffApply.applyUnified (unified cs none) L = some R :=
   applyUnified_chunks cs L R none hok hal hne
+
+/-- read the way it is written (F6), the unified text of ANY correct, aligned chunk list applies -/
+theorem applyUnifiedAsWritten_chunks (cs : List (Chunk Line)) (L R : List Line) (fi : Option FileInfo)
+    (hok : AllOK cs L R) (hal : Aligned L R 1 1 cs) :
+    DiffApply.applyUnifiedWith true (unified cs fi) L = some R :=
+  applyUnifiedWith_chunks true cs L R fi hok hal (fun _ _ => Or.inl rfl)
 
 
 /-! # the context format: `applyContext (context cs fi) L = some R` -/
